@@ -185,10 +185,21 @@ func convertToDataNode(path []string, name string, node unserialized, sn schema.
 			return nil, err
 		}
 		children = make([]datanode.DataNode, len(ukids), len(ukids))
+		_, isList := sn.(schema.List)
+		seen := make(map[string]struct{})
 		for i, ch := range ukids {
 			csn := sn.Child(ch.name())
 			if csn == nil {
 				return nil, schema.NewSchemaMismatchError(ch.name(), path)
+			}
+			if !isList {
+				// e.g. "mod-a:leaf" and "mod-b:leaf" name the same node
+				if _, dup := seen[ch.name()]; dup {
+					e := mgmterror.NewTooManyElementsError(ch.name())
+					e.Path = pathutil.Pathstr(path)
+					return nil, e
+				}
+				seen[ch.name()] = struct{}{}
 			}
 
 			childName, err := getChildName(path, ch, csn)
